@@ -258,6 +258,10 @@ func (p *fmter) printComment(comment Comment) {
 
 func (p *fmter) doDescription(desc Description) {
 	linesOut := reformatDescription(desc.Value, 80-p.indent*4)
+	if len(linesOut) == 0 {
+		// a description without words is still a description
+		linesOut = []string{""}
+	}
 	p.multiLineToken(desc.SourceNode, "| ", linesOut)
 }
 
